@@ -10,6 +10,7 @@ import (
 	"strconv"
 	"testing"
 	"time"
+	"verif/sim"
 )
 
 var (
@@ -90,7 +91,7 @@ func TestSim(t *testing.T) {
 			os.Exit(0)
 		}
 		fmt.Printf("violation class=%s key=%s event_log_hash=%d\n%s\n", o.Class, o.Key, o.EventHash, o.Detail)
-		if (v.Class == "race" && o.Class == "race") || (o.Class == v.Class && o.Key == v.Key && (o.EventHash == v.EventHash || v.EventHash == 0)) {
+		if (v.Class == "race" && o.Class == "race" && o.Key == v.Key) || (o.Class == v.Class && o.Key == v.Key && (o.EventHash == v.EventHash || v.EventHash == 0)) {
 			fmt.Println("REPRODUCED")
 		} else {
 			fmt.Println("DIFFERENT violation than recorded")
@@ -104,6 +105,17 @@ func TestSim(t *testing.T) {
 		os.Exit(2)
 	}
 	switch *fCmd {
+	case "one":
+		// debug: run one index and print everything
+		seed := runSeed(baseSeed(), p.ID, *fFrom)
+		ch := sim.NewExplore(seed)
+		if p.Enumerate != nil {
+			ch.Force("enum", p.Enumerate(*fTier)[*fFrom])
+		}
+		o, fault := runGuarded(t, p, ch, *fTier)
+		b, _ := json.MarshalIndent(o, "", " ")
+		fmt.Printf("run %d seed %d fault=%q\n%s\nchoices: %s\n", *fFrom, seed, fault, b, sim.TraceString(ch.Trace()))
+		os.Exit(0)
 	case "worker":
 		dl := time.Now().Add(24 * time.Hour)
 		if *fDeadline != 0 {
